@@ -1,0 +1,25 @@
+//go:build verif
+
+package reader
+
+// Contracts for the verification machinery in /verif (comment-only file; compiled
+// only with -tags verif and adds no code).
+
+//@ spec wfr(lr) = lr != nil && 0 <= lr.pos && lr.pos <= len(lr.runes)
+//@ spec M(lr) = 8*(len(lr.runes)-lr.pos) + 2*len(lr.history) + ite(lr.ungetFlg, ite(lr.char != 0, 2, 1), 0)
+//@ spec sameInput(lr) = lr.runes == old(lr.runes)
+
+//@ func (*ti/lexer/reader.LexerReader).Read
+//@   safe
+//@   requires wfr(lr)
+//@   ensures wfr(lr) && sameInput(lr)
+//@   ensures old(lr.ungetFlg) ==> result == old(lr.char) && !lr.ungetFlg && lr.char == old(lr.char)
+//@        && lr.pos == old(lr.pos) && lr.history == old(lr.history)
+//@   ensures !old(lr.ungetFlg) && old(len(lr.history)) > 0 ==> result == old(lr.history[0]) && lr.char == result && !lr.ungetFlg
+//@        && lr.pos == old(lr.pos) && lr.history == old(lr.history[1:])
+//@   ensures !old(lr.ungetFlg) && old(len(lr.history)) == 0 && old(lr.pos) >= len(lr.runes) ==> result == 0 && lr.char == 0 && !lr.ungetFlg
+//@        && lr.pos == old(lr.pos) && lr.history == old(lr.history)
+//@   ensures !old(lr.ungetFlg) && old(len(lr.history)) == 0 && old(lr.pos) < len(lr.runes) ==> result == old(lr.runes[lr.pos]) && lr.char == result && !lr.ungetFlg
+//@        && lr.pos == old(lr.pos) + 1 && lr.history == old(lr.history)
+//@   ensures M(lr) <= old(M(lr))
+//@   ensures result != 0 ==> M(lr) < old(M(lr))
